@@ -273,17 +273,17 @@ FinalObs(P, outs) == IF P.obs = "snapshot" THEN outs[Len(outs)] ELSE Cat(outs)
 \*  mono           C33: a snapshot shrank / a bounded value changed
 Broken(P, B, outs) ==
     LET T == Len(B)
+        tick == IsTickProg(P)
         fin == FinalObs(P, outs)
         den == Den(P, P.term, B, T)
-        tden(k) == TickDen(P, P.term.in[1], B, k)
-    IN  (IF ~IsTickProg(P) /\ ~SameAs(BagKind(P.kind), fin, den) THEN {"final_content"} ELSE {})
-   \cup (IF ~IsTickProg(P) /\ SameAs(BagKind(P.kind), fin, den) /\ ~SameAs(P.kind, fin, den)
-        THEN {"final_order"} ELSE {})
-   \cup (IF IsTickProg(P) /\ \E k \in 1..T : ~SameAs(BagKind(P.kind), outs[k], tden(k))
-        THEN {"tick_content"} ELSE {})
-   \cup (IF IsTickProg(P) /\ (\A k \in 1..T : SameAs(BagKind(P.kind), outs[k], tden(k)))
-                         /\ (\E k \in 1..T : ~SameAs(P.kind, outs[k], tden(k)))
-        THEN {"tick_order"} ELSE {})
+        td == [k \in 1..T |-> TickDen(P, P.term.in[1], B, k)]
+        bagOk == IF tick THEN \A k \in 1..T : SameAs(BagKind(P.kind), outs[k], td[k])
+                 ELSE SameAs(BagKind(P.kind), fin, den)
+        ordOk == IF tick THEN \A k \in 1..T : SameAs(P.kind, outs[k], td[k])
+                 ELSE SameAs(P.kind, fin, den)
+    IN  (IF ~bagOk THEN {IF tick THEN "tick_content" ELSE "final_content"} ELSE {})
+   \cup (IF bagOk /\ P.kind \in {"seq", "kseq"} /\ ~ordOk
+        THEN {IF tick THEN "tick_order" ELSE "final_order"} ELSE {})
    \cup (IF P.mono = "boundedvalue_stream"
         THEN (IF Len(Keys(Cat(outs))) # Len(Cat(outs)) THEN {"mono"} ELSE {})
         ELSE IF P.mono # "" /\ \E k \in 1..(T - 1) : ~MonoStep(P.mono, outs[k], outs[k + 1])
